@@ -14,8 +14,8 @@
 #include <string.h>
 #include <malloc.h>
 
-enum { LC_STORE = 1, LC_DB, LC_FSM, LC_EXF, LC_WAL, LC_WK, LC_SPIN, LC_OTHER, LC_UNKNOWN_RW };
-static const char *lc_name[] = { "?", "store", "db", "fsm", "exf", "wal", "wk", "spin", "other", "rw?" };
+enum { LC_STORE = 1, LC_DB, LC_FSM, LC_EXF, LC_WAL, LC_WK, LC_SPIN, LC_OTHER, LC_UNKNOWN_RW, LC_THR };
+static const char *lc_name[] = { "?", "store", "db", "fsm", "exf", "wal", "wk", "spin", "other", "rw?", "thr" };
 
 #define LO_MAXOBJ 4096
 static struct { const void *addr; int cls; int during_open; } lo_obj[LO_MAXOBJ];
@@ -98,6 +98,18 @@ int pthread_cond_wait(pthread_cond_t *c, pthread_mutex_t *m) {
 }
 int pthread_cond_timedwait(pthread_cond_t *c, pthread_mutex_t *m, const struct timespec *t) {
   REAL(pthread_cond_timedwait); lo_on_release(m); int r = real(c, m, t); lo_on_acquire(m, 1, 0, 0); return r;
+}
+// joining a thread = acquiring its termination: every lock held at that moment is one the thread must never wait for
+int pthread_join(pthread_t th, void **ret) {
+  REAL(pthread_join);
+  if (lo_enabled && !lo_busy) {
+    lo_busy = 1;
+    lo_acq();
+    for (int i = 0; i < lo_nheld && !lo_in_open && !lo_probe; ++i) lo_fact(0, lo_held[i].cls, lo_held[i].mode, LC_THR, 1);
+    lo_rel();
+    lo_busy = 0;
+  }
+  return real(th, ret);
 }
 int pthread_rwlock_init(pthread_rwlock_t *l, const pthread_rwlockattr_t *a) {
   REAL(pthread_rwlock_init); int r = real(l, a);
